@@ -745,6 +745,30 @@ impl World {
             }
         }
 
+        // The position of the failing right among the processed ones depends on hash order:
+        // repeat the failing call (fresh hash sets each time) and compare again.
+        if !ok && mode == Mode::Check {
+            for round in 0..6 {
+                let Some(again) = self.raw_call(op) else { break };
+                self.bump("failing_call_repeats");
+                if again {
+                    self.fail("C09.e", format!("{op}: failed, then succeeded when repeated (round {round})"));
+                    break;
+                }
+                let after = ser(&self.msk);
+                if after != before_msk && !msk_equal_canon(&before_msk, &after) {
+                    self.fail("C10.a", format!("{op}: returned Err but the master key changed: {}", msk_diff(&before_msk, &after)));
+                    break;
+                }
+                if let (Some(b), Op::Refresh { k, .. }) = (&before_usk, op) {
+                    if &ser(&self.usks[*k].usk) != b {
+                        self.fail("C10.b", format!("{op}: returned Err but the user key changed"));
+                        break;
+                    }
+                }
+            }
+        }
+
         // ---- lock-step: read the master key back ------------------------------------------
         if touched_msk {
             self.observe_msk(&opname, &created);
@@ -807,6 +831,31 @@ impl World {
             self.check_msk_object(&opname);
         }
         ok
+    }
+
+    /// The bare implementation call of a fallible master-key operation (no model step).
+    fn raw_call(&mut self, op: &Op) -> Option<bool> {
+        let r = match op {
+            Op::Update => guarded!(self.cc.update_msk(&mut self.msk).map(|_| ())),
+            Op::Rekey(p) => {
+                let ap = AccessPolicy::parse(p).ok()?;
+                guarded!(self.cc.rekey(&mut self.msk, &ap).map(|_| ()))
+            }
+            Op::Prune(p) => {
+                let ap = AccessPolicy::parse(p).ok()?;
+                guarded!(self.cc.prune_master_secret_key(&mut self.msk, &ap).map(|_| ()))
+            }
+            Op::Keygen(p) => {
+                let ap = AccessPolicy::parse(p).ok()?;
+                guarded!(self.cc.generate_user_secret_key(&mut self.msk, &ap).map(|_| ()))
+            }
+            Op::Refresh { k, keep } => {
+                let usk = &mut self.usks[*k].usk;
+                guarded!(self.cc.refresh_usk(&mut self.msk, usk, *keep))
+            }
+            _ => return None,
+        };
+        Some(matches!(r, Ok(Ok(()))))
     }
 
     /// A freshly generated key holds exactly the newest secret of every right of its policy.
